@@ -20,7 +20,7 @@ from hypothesis import strategies as st
 from .. import gen, ref
 from ..core import Clause, Out, Property
 from ..env import L
-from ..lib import F, Q
+from ..lib import F, Q, case_flag, quiet
 
 U_ = ref.U
 
@@ -351,8 +351,11 @@ def check_hermitian(case):
         kw["tol"] = float(case["tol"])
         out.label(f"tol={case['tol']:g}")
     site = "power_iteration(hermitian,gap)"
+    if case_flag(A, 6):
+        kw["verbose"] = True
+        out.label("verbose=True")
     np.random.seed(int(case["seed"]))
-    ok, r = out.call(site, L.utils.power_iteration, Q(A), return_eigenvalue=True, **kw)
+    ok, r = out.call(site, quiet, L.utils.power_iteration, Q(A), return_eigenvalue=True, **kw)
     out.nontrivial = n >= 2 and (lam1 < 0 or mixed or rho >= 0.5)
     if not ok:
         return out
@@ -395,8 +398,11 @@ def check_arbitrary(case):
     out.label(case["kind"], f"max_it={case.get('max_iterations')}", *tags)
     kw = _pi_kwargs(case)
     site = "power_iteration(arbitrary)"
+    if case_flag(A, 6):
+        kw["verbose"] = True
+        out.label("verbose=True")
     np.random.seed(int(case["seed"]))
-    ok, r = out.call(site, L.utils.power_iteration, Q(A), return_eigenvalue=True, **kw)
+    ok, r = out.call(site, quiet, L.utils.power_iteration, Q(A), return_eigenvalue=True, **kw)
     out.nontrivial = n >= 2 and not herm
     if ok and out.true(f"{site}:returns (vector, estimate)", isinstance(r, tuple) and len(r) == 2, f"got {type(r)}"):
         v = _as_vec(out, site, r[0], n, (n, 1))
@@ -406,7 +412,7 @@ def check_arbitrary(case):
             out.sample = {"n": n, "estimate": est, "sigma_1": _sigma1(A)}
     site2 = "power_iteration(arbitrary,return_eigenvalue=False)"
     np.random.seed(int(case["seed"]))
-    ok2, v2 = out.call(site2, L.utils.power_iteration, Q(A), **kw)
+    ok2, v2 = out.call(site2, quiet, L.utils.power_iteration, Q(A), **kw)
     if ok2:
         v2 = _as_vec(out, site2, v2, n, (n, 1))
         if v2 is not None:
